@@ -43,8 +43,13 @@ def rule_a(prog, rep):
         b = Bindings(crate, f)
         n += 1
         # the loop
-        loops = [nd for nd, a in crate.walk_fn(f) if nd.get('k') == 'for' and
-                 any(x.get('k') == 'call' and callee(x) == f'{CORE}::notify_subscribers' for x, _ in walk(nd['body']))]
+        # (found through the ancestors of the call, so that a call moved into a new helper of the loop body still counts)
+        loops = []
+        for nd_, anc_ in crate.walk_fn(f):
+            if nd_.get('k') == 'call' and callee(nd_) == f'{CORE}::notify_subscribers':
+                for a_ in anc_:
+                    if isinstance(a_, dict) and a_.get('k') == 'for' and not any(a_ is l_ for l_ in loops):
+                        loops.append(a_)
         if len(loops) != 1:
             rep.violation('C03.a', f'Worterbuch::{fname}', f.loc, f'{len(loops)} loops containing notify_subscribers',
                           key=f'C03.a/{fname}/loop', expected='one loop over the mutator result')
